@@ -75,3 +75,49 @@ def run(ctx):
     ctx.count(len(hists), [json.dumps([[s["fn"], s["m"]] for s in h["steps"]]) for h in hists if any(s["dlv"] for s in h["steps"])],
               [{"kind": h["kind"], "steps": [[s["fn"], s["m"] if s["fn"] == "Send" else s["msgs"] if s["fn"] == "SendPar" else "", s["ret"], s["dlv"]] for s in h["steps"][:12]]} for h in hists[:2]])
     return fails
+
+
+def run_filter(ctx):
+    """C14 on midicatdrv's own copy of the listen-option filter: twin histories, relation judged by TLC."""
+    q = ctx.quick
+    d = ctx.sub("mcatf")
+    out = os.path.join(d, "hist.ndjson")
+    n = 24 if q else 150
+    _run(ctx, ["filter", "-seed", str(ctx.seed + 900), "-n", str(n), "-out", out], d)
+    recs, race = _collect(d, out)
+    if len(recs) < 2 * n:
+        raise Machinery("midicatdrv filter histories did not complete (%d of %d): a call hung or panicked; that is C17's subject" % (len(recs), 2 * n))
+    twins = []
+    for i in range(0, len(recs), 2):
+        a, b = recs[i], recs[i + 1]
+        pan = "".join(s["pan"] for s in a["steps"] + b["steps"]) + ("timeout" if any(s["timeout"] for s in a["steps"] + b["steps"]) else "")
+        twins.append({"kind": "twin", "id": a["id"], "opts": a["steps"][1]["opts"], "sends": [s["m"] for s in a["steps"] if s["fn"] == "Send"],
+                      "own": [s["dlv"] for s in a["steps"]], "all": [s["dlv"] for s in b["steps"]], "pan": pan, "hist": a["steps"]})
+    bad = ctx.validate("Trace_Ports", twins)
+    ctx.log("midicatdrv filter twins: %d pairs, %d rejected" % (len(twins), len(bad)))
+    fails = []
+    for idx, info in bad:
+        t = twins[idx]
+        fails.append(Failure("mcat-filter", "midicatdrv listen options %s: sends %s delivered %s, with all options on %s" %
+                             (t["opts"], t["sends"], [[d["m"] for d in x] for x in t["own"] if x], [[d["m"] for d in x] for x in t["all"] if x]),
+                             {"family": "mcat-filter", "seed": ctx.seed, "twin": t}))
+    ctx.count(len(twins), ["%s%s" % (t["opts"], t["sends"]) for t in twins if any(m >= 240 for m in t["sends"])], [dict((k, t[k]) for k in ("opts", "sends", "own")) for t in twins[:1]])
+    return fails
+
+
+def confirm_filter(ctx, f):
+    t = f.payload["twin"]
+    d = ctx.sub("mcatfre")
+    i, o = os.path.join(d, "in.ndjson"), os.path.join(d, "out.ndjson")
+    allon = {"sysex": True, "as": True, "tc": True}
+    with open(i, "w") as fh:
+        for opts in (t["opts"], allon):
+            steps = [dict(s) for s in t["hist"]]
+            steps[1]["opts"] = opts
+            fh.write(json.dumps({"id": 0, "kind": "midicat", "steps": steps, "race": "", "note": ""}) + "\n")
+    _run(ctx, ["rerun", "-in", i, "-out", o], d)
+    recs, _ = _collect(d, o)
+    if len(recs) < 2:
+        return False
+    tw = dict(t, own=[s["dlv"] for s in recs[0]["steps"]], all=[s["dlv"] for s in recs[1]["steps"]])
+    return bool(ctx.validate("Trace_Ports", [tw], shards=1))
